@@ -222,3 +222,13 @@ package sync
 //@   loop 1 invariant latestBlock.Num == l.BlockNumber && latestBlock.Hash == l.BlockHash
 //@   loop 1 invariant forall(k, 0, len(blocks), blocks[k] != nil && fresh(blocks[k]) && fromBlock <= blocks[k].Num && blocks[k].Num <= toBlock)
 //@   loop 1 invariant forall(k, 0, len(blocks) - 1, blocks[k].Num < blocks[k+1].Num)
+
+// waiting for the chain to advance (C05): the answer is never behind the block the caller has seen, and it is that same
+// block only when the context has ended (the download loop then stops); a failing RPC is retried
+//@ func (d *EVMDownloaderImplementation) WaitForNewBlocks
+//@   props C05
+//@   requires d != nil && d.ethClient != nil && d.log != nil && d.rh != nil
+//@   modifies ctxEnded
+//@   ensures[never-behind] result >= latestSyncedBlock
+//@   ensures[no-progress-only-when-the-context-ended] result == latestSyncedBlock ==> ctxEnded
+//@   loop 0 invariant d != nil && d.ethClient != nil && d.log != nil && d.rh != nil && ticker != nil
